@@ -163,7 +163,14 @@ func crashRound(sh *shard, r *rand.Rand, sum *sumT) int {
 					sum.mismatch(Mismatch{Property: "C07", Case: caseS, Expected: "a minority failure is tolerated: the remaining replies satisfy the quorum function", Observed: canon, Detail: strings.ReplaceAll(err.Error(), "\n", "/")})
 				}
 				if p[0] == "ctx" {
-					sum.mismatch(Mismatch{Property: "C07", Case: caseS, Expected: "a call waiting for a node whose connection breaks is completed with an error for that node", Observed: "left waiting until its 2s deadline: " + canon, Detail: strings.Join(signatures(goroutineDump()), "; ")})
+					// a stream fails in every round of this workload, so the known wedges of C09 can strike: a sender stuck
+					// in the stale-broken wedge holds up the calls that hand it requests until their deadlines
+					if w := diagnose(); w.id != "" {
+						sum.known("C09:" + w.id)
+						sum.count("call-held-up-by-known-wedge:" + w.id)
+					} else {
+						sum.mismatch(Mismatch{Property: "C07", Case: caseS, Expected: "a call waiting for a node whose connection breaks is completed with an error for that node", Observed: "left waiting until its 2s deadline: " + canon, Detail: strings.Join(signatures(w.dump), "; ")})
+					}
 				}
 				sum.nontrivial(fmt.Sprintf("%s/%d/%d", p[0], nErr, nRep))
 			}
